@@ -621,6 +621,9 @@ def rotate (left : Bool) (s : MState) (now : Int) (src dst : Bytes) : R :=
   match asList s src with
   | none => (s, .panic)
   | some l =>
+    -- a destination of another type fails the command before anything is popped
+    let (s, dok) := writeKey s now dst none
+    if dok && (asList s dst).isNone then (s, .panic) else
     let (l', r) := if left then DsList.lpop l 1 else DsList.rpop l 1
     match r with
     | none => (s, .bytes none)
@@ -890,6 +893,9 @@ def smove (s : MState) (now : Int) (src dst member : Bytes) : R :=
   match asSet s src with
   | none => (s, .panic)
   | some st =>
+    -- a destination of another type fails the command before the member leaves the source
+    let (s, dok) := writeKey s now dst none
+    if dok && (asSet s dst).isNone then (s, .panic) else
     let (st', m) := DsSet.srem st [member]
     let s := setVal s src (.set st')
     if m = 0 then (s, .bool false) else
